@@ -2,15 +2,17 @@
   Model of the landscape norms (property C10), import-free and polymorphic.
 
   Anchors (all in /repo/persim/landscapes):
-    * `auxiliary.py:_p_norm`            → `segTerm`, `pNormPow`, `pNorm`   (code after fix 5bfdf8b)
-    * the same function before the fix  → `segTermOld`, `pNormPowOld`
+    * `auxiliary.py:_p_norm`            → `segTerm`, `pNormPow`, `pNorm`   (code after fixes 5bfdf8b, b342827)
+    * the same function before 5bfdf8b  → `segTermOld`, `pNormPowOld`
+      (b342827 only re-associates the one-signed branch against float cancellation; in exact
+       arithmetic the value did not change)
     * `base.py:PersLandscape.p_norm`    → `checkP`  (argument validation)
     * `exact.py:p_norm / sup_norm`      → `pNormMethod`, `supNormExact`
     * `approximate.py:p_norm / sup_norm / values_to_pairs` → `valuesToPairs`, `supNormApprox`
 
   A depth function is its list of critical points `(x, y)`; a landscape is the list of its depth
   functions.  `x ** p` and `x ** (p+1)` are the parameters `powP`, `powP1`, the real number `p+1`
-  is `p1`, the final `** (1.0/p)` is `root`: one definition therefore serves natural `p`
+  is `p1`, `-np.expm1((p+1)*np.log(r))` is `oneSubPow r`, the final `** (1.0/p)` is `root`: one definition therefore serves natural `p`
   (`^` on `Rat`/`ℝ`, see `pNormPowNat`) and real `p` (`Float.pow`, see `pNormPowF` in the driver).
 -/
 namespace PersimVerif.PNorm
@@ -48,9 +50,15 @@ def segs : List (α × α) → List ((α × α) × (α × α))
 
 variable [OfNat α 2]
 
+/-- `a, M = sorted((np.abs(y0), np.abs(y1)))` -/
+def sortedAbs (y0 y1 : α) : α × α :=
+  if absA y1 < absA y0 then (absA y1, absA y0) else (absA y0, absA y1)
+
 /-- the contribution of one segment to `result` — body of the inner loop of the **fixed** `_p_norm`
-    (auxiliary.py:153-171).  `powP x = x ** p`, `powP1 x = x ** (p+1)`, `p1 = p + 1`. -/
-def segTerm (powP powP1 : α → α) (p1 : α) (x0 y0 x1 y1 : α) : α :=
+    (auxiliary.py:153-177, after fixes 5bfdf8b and b342827).
+    `powP x = x ** p`, `p1 = p + 1`, `powP1 x = x ** (p+1)`,
+    `oneSubPow r = -np.expm1((p + 1) * np.log(r))`, i.e. `1 - r ** (p+1)` for `r > 0`. -/
+def segTerm (powP powP1 oneSubPow : α → α) (p1 : α) (x0 y0 x1 y1 : α) : α :=
   if y0 == y1 then
     -- horizontal line segment
     powP (absA y0) * (x1 - x0)
@@ -66,9 +74,10 @@ def segTerm (powP powP1 : α → α) (p1 : α) (x0 y0 x1 y1 : α) : α :=
       absA (ev_x1 + ev_x0 - 2 * ev_z)
     else
       -- segment does not cross the x-axis
-      let ev_x1 := powP1 (absA (slope * x1 + b)) / (absA slope * p1)
-      let ev_x0 := powP1 (absA (slope * x0 + b)) / (absA slope * p1)
-      absA (ev_x1 - ev_x0)
+      let aM := sortedAbs y0 y1
+      let r := aM.1 / aM.2
+      let ratio := if r == 0 then 1 else oneSubPow r / (1 - r)
+      (x1 - x0) * powP aM.2 * ratio / p1
 
 /-- the same loop body **before** fix 5bfdf8b: no absolute values inside the antiderivative -/
 def segTermOld (powP powP1 : α → α) (p1 : α) (x0 y0 x1 y1 : α) : α :=
@@ -97,16 +106,16 @@ def accumulate (term : α → α → α → α → α) (cps : List (List (α × 
   (segTerms term cps).foldl (· + ·) 0
 
 /-- p-th **power** of the norm computed by the fixed `_p_norm`, general exponent -/
-def pNormPowGen (powP powP1 : α → α) (p1 : α) (cps : List (List (α × α))) : α :=
-  accumulate (segTerm powP powP1 p1) cps
+def pNormPowGen (powP powP1 oneSubPow : α → α) (p1 : α) (cps : List (List (α × α))) : α :=
+  accumulate (segTerm powP powP1 oneSubPow p1) cps
 
 /-- p-th power of the value of the pre-fix `_p_norm` -/
 def pNormPowOldGen (powP powP1 : α → α) (p1 : α) (cps : List (List (α × α))) : α :=
   accumulate (segTermOld powP powP1 p1) cps
 
 /-- `_p_norm` itself: `(result) ** (1.0 / p)` -/
-def pNormGen (root powP powP1 : α → α) (p1 : α) (cps : List (List (α × α))) : α :=
-  root (pNormPowGen powP powP1 p1 cps)
+def pNormGen (root powP powP1 oneSubPow : α → α) (p1 : α) (cps : List (List (α × α))) : α :=
+  root (pNormPowGen powP powP1 oneSubPow p1 cps)
 
 /-! ### natural `p`: powers are `^` -/
 
@@ -114,11 +123,11 @@ variable [Pow α Nat] [NatCast α]
 
 /-- segment term of the fixed code for natural `p` -/
 def segTermNat (p : Nat) (x0 y0 x1 y1 : α) : α :=
-  segTerm (fun x => x ^ p) (fun x => x ^ (p + 1)) ((p + 1 : Nat) : α) x0 y0 x1 y1
+  segTerm (fun x => x ^ p) (fun x => x ^ (p + 1)) (fun r => 1 - r ^ (p + 1)) ((p + 1 : Nat) : α) x0 y0 x1 y1
 
 /-- **`pNormPow p cps`**: the p-th power of `_p_norm(p, cps)` for natural `p` (fixed code) -/
 def pNormPow (p : Nat) (cps : List (List (α × α))) : α :=
-  pNormPowGen (fun x => x ^ p) (fun x => x ^ (p + 1)) ((p + 1 : Nat) : α) cps
+  pNormPowGen (fun x => x ^ p) (fun x => x ^ (p + 1)) (fun r => 1 - r ^ (p + 1)) ((p + 1 : Nat) : α) cps
 
 /-- the same for the code before fix 5bfdf8b -/
 def pNormPowOld (p : Nat) (cps : List (List (α × α))) : α :=
@@ -183,13 +192,14 @@ def valuesToPairs (grid : List α) (values : List (List α)) : List (List (α ×
 /-- `PersLandscapeExact.p_norm` / `PersLandscapeApprox.p_norm`: `super().p_norm(p=p)` validates `p`
     (its return value — the sup norm when `p == -1` — is **discarded** by both subclasses), then
     `_p_norm(p, critical pairs)` runs for every accepted `p`.  `p == 0` makes `1.0 / p` raise. -/
-def pNormMethod (root powP powP1 : α → α) (p : α) (cps : List (List (α × α))) : Except Err α :=
+def pNormMethod (root powP powP1 oneSubPow : α → α) (p : α) (cps : List (List (α × α))) :
+    Except Err α :=
   match checkP p with
   | .reject => .error .valueError
   | _ =>
     if hasVerticalSeg cps then .error .zeroDivision
     else if p == 0 then .error .zeroDivision
-    else .ok (pNormGen root powP powP1 (p + 1) cps)
+    else .ok (pNormGen root powP powP1 oneSubPow (p + 1) cps)
 
 end
 end PersimVerif.PNorm
